@@ -17,6 +17,7 @@ Notation tok := Lex.tok (only parsing).
 Inductive exp :=
 | ENil | ETrue | EFalse | EVararg
 | ENum (s : bytes) | EStr (s : bytes) | EName (n : bytes)
+| EBrk (lvl : nat) (body : bytes)                    (* a long-bracket string [==[ body ]==], written as it is *)
 | EField (p : exp) (n : bytes)                       (* p.n *)
 | EIndex (p k : exp)                                 (* p[k] *)
 | ECall (f : exp) (sg : bool) (args : list exp)                  (* f(args); sg: the single string / table argument is *)
@@ -117,10 +118,10 @@ Definition nprog := nblk.
 (* ---------------- call form: call_parentheses (functions.rs format_function_args, the model of CallForm.v) ----------------
    The single argument of a call is put in the form CallForm.call_form gives for the mode, the form it had, its kind and
    "an index or a method call follows" (format_function_call: the next suffix). *)
-Definition sugarable (args : list exp) : bool := match args with [EStr _] | [ETable _] | [ETableML _] => true | _ => false end.
-Definition akind_args (args : list exp) : akind := match args with [EStr _] => KStr | [ETable _] | [ETableML _] => KTbl | _ => KOther end.
+Definition sugarable (args : list exp) : bool := match args with [EStr _] | [EBrk _ _] | [ETable _] | [ETableML _] => true | _ => false end.
+Definition akind_args (args : list exp) : akind := match args with [EStr _] | [EBrk _ _] => KStr | [ETable _] | [ETableML _] => KTbl | _ => KOther end.
 Definition aform_args (sg : bool) (args : list exp) : aform :=
-  if sg then match args with [EStr _] => FStr | [ETable _] | [ETableML _] => FTbl | _ => FParen end else FParen.
+  if sg then match args with [EStr _] | [EBrk _ _] => FStr | [ETable _] | [ETableML _] => FTbl | _ => FParen end else FParen.
 Definition newsg (m : cmode) (obs sg : bool) (args : list exp) : bool :=
   match call_form m (aform_args sg args) (akind_args args) obs with FParen => false | _ => true end.
 Section CExp.
@@ -279,6 +280,7 @@ Fixpoint pexp (d : nat) (e : exp) {struct e} : list tok :=
   match e with
   | ENil => [kw "nil"] | ETrue => [kw "true"] | EFalse => [kw "false"] | EVararg => [kw "..."]
   | ENum s => [TNum (Number.number_rewrite s)] | EStr s => [pstr (style0 c) s] | EName n => [TIdent n]
+  | EBrk n b => [TStr QBrackets n b]
   | EField p n => pexp d p ++ [kw "."; TIdent n]
   | EIndex p k => pexp d p ++ kw "[" :: pexp d k ++ [kw "]"]
   | ECall f sg args => pexp d f ++ pargs (sg && sugarable args) (commas (map (pexp d) args))
